@@ -67,7 +67,7 @@ def observe(case):
         parsed = {r: _frame(t, r) for r in t.get_ranks()}
         canon["iteration"] = {r: sorted([x[0], x[8]] for x in rows) for r, rows in parsed.items()}
         try:
-            ta = htaio.load(files, include_last=case["params"]["include_last"])
+            ta = htaio.load(files, include_last=case["params"]["include_last"], ctor=case.get("ctor"))
             C.disturb(ta, case.get("pre"))
             canon["kept"] = {r: sorted(x[0] for x in _frame(ta.t, r)) for r in ta.t.get_ranks()}
             canon["n_rows"] = {r: len(ta.t.get_trace(r)) for r in ta.t.get_ranks()}
